@@ -303,6 +303,67 @@ Proof.
   pose proof (move_mints_nothing c s d v H1). simpl in *. lia.
 Qed.
 
+(* ---- bid app ---- *)
+Section Bid.
+Variables (payer fp : N) (fee : Z).
+Hypothesis fee_nonneg : 0 <= fee.
+
+Lemma bid_create_facts known cur bidder conv v hc c ops : effect_bid_create known cur bidder conv v hc c = Some ops ->
+  no_creation (ops ++ fee_ops payer fp fee) /\ credits_ok (ops ++ fee_ops payer fp fee) /\
+  takes_only_from (ops ++ fee_ops payer fp fee) [bidder; payer].
+Proof.
+  unfold effect_bid_create, amount_valid. intros H. open_effect H. split_guards.
+  split; [tw_crush|split; [cred_crush|deb_crush]].
+Qed.
+
+(* unlocking / paying out the whole escrow record: creates nothing; takes from the bidder's escrow only *)
+Lemma bid_escrow_move_facts (l : gmap key Z) (bidder conv : N) (dst : key) : nonneg l -> k_cur dst = CUR_OLT -> k_bucket dst = B_BAL ->
+  let ops := [Move (esc bidder conv) dst (lget l (esc bidder conv))] in
+  no_creation (ops ++ fee_ops payer fp fee) /\ credits_ok (ops ++ fee_ops payer fp fee) /\
+  takes_only_from (ops ++ fee_ops payer fp fee) [bidder; payer].
+Proof.
+  intros NN C B. pose proof (NN (esc bidder conv)) as P. generalize dependent (lget l (esc bidder conv)). intros a P.
+  destruct dst as [[[o b] c] s0]. unfold k_cur, k_bucket in C, B. simpl in C, B. subst c b.
+  split; [tw_crush|split; [cred_crush|deb_crush]].
+Qed.
+
+Lemma bid_bidder_accept_facts bidder owner c ops : effect_bid_bidder_accept bidder owner c = Some ops ->
+  no_creation (ops ++ fee_ops payer fp fee) /\ credits_ok (ops ++ fee_ops payer fp fee) /\
+  takes_only_from (ops ++ fee_ops payer fp fee) [bidder; payer].
+Proof.
+  unfold effect_bid_bidder_accept. intros H. open_effect H.
+  split; [tw_crush|split; [cred_crush|deb_crush]].
+Qed.
+End Bid.
+
+Lemma bid_create_stmt : forall known cur bidder conv v hc c payer fp fee ops, 0 <= fee ->
+  effect_bid_create known cur bidder conv v hc c = Some ops ->
+  no_creation (ops ++ fee_ops payer fp fee) /\ credits_ok (ops ++ fee_ops payer fp fee) /\ takes_only_from (ops ++ fee_ops payer fp fee) [bidder; payer].
+Proof. intros known cur bidder conv v hc c payer fp fee ops Hfee H. exact (bid_create_facts payer fp fee Hfee _ _ _ _ _ _ _ _ H). Qed.
+
+Lemma bid_unlock_stmt : forall (l : gmap key Z) (bidder conv payer fp : N) (fee : Z), 0 <= fee -> nonneg l ->
+  no_creation (unlock_ops l bidder conv ++ fee_ops payer fp fee) /\ credits_ok (unlock_ops l bidder conv ++ fee_ops payer fp fee) /\
+  takes_only_from (unlock_ops l bidder conv ++ fee_ops payer fp fee) [bidder; payer] /\
+  forall a c, a <> payer -> holdings a c (run_tx l (unlock_ops l bidder conv)) = holdings a c l.
+Proof.
+  intros l bidder conv payer fp fee Hfee NN.
+  destruct (bid_escrow_move_facts payer fp fee Hfee l bidder conv (bal bidder CUR_OLT) NN eq_refl eq_refl) as [A [B C]].
+  repeat split; auto. intros a c _. apply run_tx_own_moves. unfold unlock_ops, esc, bal, mk, own_move, k_owner, k_cur, k_bucket. simpl.
+  rewrite !N.eqb_refl. reflexivity.
+Qed.
+
+Lemma bid_owner_accept_stmt : forall (l : gmap key Z) (bidder owner conv payer fp : N) (fee : Z) ops, 0 <= fee -> nonneg l ->
+  effect_bid_owner_accept l bidder owner conv = Some ops ->
+  no_creation (ops ++ fee_ops payer fp fee) /\ credits_ok (ops ++ fee_ops payer fp fee) /\ takes_only_from (ops ++ fee_ops payer fp fee) [bidder; payer].
+Proof.
+  intros l bidder owner conv payer fp fee ops Hfee NN H. unfold effect_bid_owner_accept in H. injection H as <-.
+  exact (bid_escrow_move_facts payer fp fee Hfee l bidder conv (bal owner CUR_OLT) NN eq_refl eq_refl).
+Qed.
+
+Lemma bid_bidder_accept_stmt : forall bidder owner c payer fp fee ops, 0 <= fee -> effect_bid_bidder_accept bidder owner c = Some ops ->
+  no_creation (ops ++ fee_ops payer fp fee) /\ credits_ok (ops ++ fee_ops payer fp fee) /\ takes_only_from (ops ++ fee_ops payer fp fee) [bidder; payer].
+Proof. intros bidder owner c payer fp fee ops Hfee H. exact (bid_bidder_accept_facts payer fp fee Hfee _ _ _ _ H). Qed.
+
 (* ---- allegation penalty / bounty (EndBlock, guilty verdict) ---- *)
 Lemma penalty_amount_nonneg total pct dec : 0 <= total -> 0 <= pct -> 0 < dec -> 0 <= penalty_amount total pct dec.
 Proof. intros. unfold penalty_amount. apply Z.div_pos; nia. Qed.
